@@ -1,5 +1,245 @@
-/- Line-protocol handler for C15 (stub until the model exists). -/
-import NoulithModel.Common
+/- Line-protocol handler for C15.
+
+Requests (tokens separated by one space; `<cps>` = code points in hex separated by `.`, `-` = empty)
+  lex <cps>                      token stream of the source text
+  int <form> <n> <cps>           integer literal: Impl lexes+evaluates <cps>; Spec = n; 3rd field = Spec rendering
+  rat <n> <cps>                  rational literal `<n>q`
+  float <ip>:<frac>:<exp>:<suf> <cps>
+  str <kind> <delim> <items> <cps>   kind s|b|F, delim q|d
+  raw <delim> <body cps> <cps>
+  fmt <cps>                      format-string brace scanner on a body
+  cls <lo> <hi>                  Unicode classes of the code points lo..hi (decimal)
+Response: `<impl>\t<spec>[\t<diagnostic>]`. -/
+import NoulithModel.Impl.Lex
+import NoulithModel.Spec.Literal
+
 namespace Noulith.DriverC15
-def handle (_args : List String) : String := "bad-op"
+open Noulith Noulith.Lex Noulith.LitSpec
+
+def hexNat (n : Nat) : String := String.ofList (Nat.toDigits 16 n)
+
+def parseHexNat (s : String) : Option Nat :=
+  s.toList.foldl (fun acc c => match acc, hexDigitVal c with
+    | some a, some d => some (16 * a + d)
+    | _, _ => none) (some 0)
+
+def parseCps (s : String) : Option (List Char) :=
+  if s = "-" then some []
+  else (s.splitOn ".").foldr (fun t acc => match acc, parseHexNat t with
+    | some r, some n => some (Char.ofNat n :: r)
+    | _, _ => none) (some [])
+
+def renderCps (cs : List Char) : String :=
+  if cs.isEmpty then "-" else joinWith "." (cs.map fun c => hexNat c.toNat)
+
+def renderInvalid : InvalidKind → String
+  | .badHexEscape => "badHexEscape" | .badUEnd => "badUEnd" | .uTooBig => "uTooBig"
+  | .unknownEscape => "unknownEscape" | .escapeEof => "escapeEof" | .stringEof => "stringEof"
+  | .runawayComment => "runawayComment" | .fmtNoQuote => "fmtNoQuote" | .rawNoQuote => "rawNoQuote"
+  | .unrecognized => "unrecognized" | .invalidFloat => "invalidFloat" | .invalidImag => "invalidImag"
+
+def renderToken : Token → String
+  | .invalid k => "Invalid:" ++ renderInvalid k
+  | .intLit n => "Int:" ++ toString n
+  | .ratLit n => "Rat:" ++ toString n
+  | .floatLit t => "Float:" ++ String.ofList t
+  | .imagLit t => "Imag:" ++ String.ofList t
+  | .stringLit s => "Str:" ++ renderCps s
+  | .bytesLit bs => "Bytes:" ++ hexOfBytes bs
+  | .formatString s => "Fmt:" ++ renderCps s
+  | .ident s => "Ident:" ++ renderCps s
+  | .leftParen => "LeftParen" | .rightParen => "RightParen" | .leftBracket => "LeftBracket"
+  | .bLeftBracket => "BLeftBracket" | .rightBracket => "RightBracket" | .leftBrace => "LeftBrace"
+  | .rightBrace => "RightBrace" | .backtick => "Backtick" | .null => "Null" | .and => "And"
+  | .or => "Or" | .coalesce => "Coalesce" | .while => "While" | .for => "For" | .yield => "Yield"
+  | .into => "Into" | .if => "If" | .else => "Else" | .switch => "Switch" | .case => "Case"
+  | .try => "Try" | .catch => "Catch" | .break => "Break" | .continue => "Continue"
+  | .return => "Return" | .throw => "Throw" | .bang => "Bang" | .questionMark => "QuestionMark"
+  | .colon => "Colon" | .leftArrow => "LeftArrow" | .rightArrow => "RightArrow"
+  | .doubleLeftArrow => "DoubleLeftArrow" | .doubleColon => "DoubleColon" | .semicolon => "Semicolon"
+  | .ellipsis => "Ellipsis" | .lambda => "Lambda" | .lambdaEnd => "LambdaEnd" | .comma => "Comma"
+  | .assign => "Assign" | .consume => "Consume" | .pop => "Pop" | .remove => "Remove"
+  | .swap => "Swap" | .every => "Every" | .struct => "Struct" | .freeze => "Freeze"
+  | .import => "Import" | .literally => "Literally" | .underscore => "Underscore"
+  | .internalFrame => "InternalFrame" | .internalPush => "InternalPush" | .internalPop => "InternalPop"
+  | .internalPeek => "InternalPeek" | .internalPeekN n => "InternalPeekN:" ++ toString n
+  | .internalWhile => "InternalWhile" | .internalFor => "InternalFor" | .internalCall => "InternalCall"
+  | .internalLambda => "InternalLambda"
+  | .comment s => "Comment:" ++ renderCps s
+  | .panic site => "PANIC:" ++ site
+
+def renderTokens (ts : List Token) : String :=
+  if ts.any Token.isPanic then "panic"
+  else "ok" ++ String.join (ts.map fun t => " " ++ renderToken t)
+
+def utf8OfChars (cs : List Char) : List Nat := cs.flatMap utf8Encode
+
+def renderLitVal : LitVal → String
+  | .int n _ => toString n
+  | .rat n => toString n ++ "/1"
+  | .float t => "float:" ++ String.ofList t
+  | .imag t => "imag:" ++ String.ofList t
+  | .str s => "s:" ++ hexOfBytes (utf8OfChars s)
+  | .bytes bs => "b:" ++ hexOfBytes bs
+
+def repOf : Out LitVal → String
+  | .ok (.int _ true) => "small"
+  | .ok (.int _ false) => "big"
+  | _ => "-"
+
+/-! request decoding -/
+def flag (c : Char) : Bool := c = 'u'
+
+def parseIntForm (s : String) : Option IntForm :=
+  match s.splitOn ":" with
+  | ["dec"] => some .dec
+  | ["hex", f] => match f.toList with | [a, b] => some (.hex (flag a) (flag b)) | _ => none
+  | ["bin", f] => match f.toList with | [a] => some (.bin (flag a)) | _ => none
+  | ["oct", f] => match f.toList with | [a] => some (.oct (flag a)) | _ => none
+  | ["radix", r, f] => match r.toNat?, f.toList with
+    | some r, [a, b] => some (.radix r (flag a) (flag b))
+    | _, _ => none
+  | ["b64", f] => match f.toList with | [a, b] => some (.b64 (flag a) (flag b)) | _ => none
+  | _ => none
+
+def digitsOfString (s : String) : Option (List Nat) :=
+  s.toList.foldr (fun c acc => match acc with
+    | some r => if '0' ≤ c ∧ c ≤ '9' then some ((c.toNat - 48) :: r) else none
+    | none => none) (some [])
+
+def parseFloatDesc (s : String) : Option FloatLit :=
+  match s.splitOn ":" with
+  | [ip, fr, ex, su] =>
+    let frac : Option (Option (List Nat)) :=
+      if fr = "_" then some none
+      else if fr.startsWith "." then (digitsOfString (fr.drop 1).toString).map some else none
+    let exp : Option (Option (Bool × Bool × List Nat)) :=
+      if ex = "_" then some none
+      else match ex.toList with
+        | e :: '-' :: ds => (digitsOfString (String.ofList ds)).map fun d => some (e = 'E', true, d)
+        | e :: ds => (digitsOfString (String.ofList ds)).map fun d => some (e = 'E', false, d)
+        | [] => none
+    let suf : Option NumSuffix := match su with
+      | "_" => some .none | "f" => some (.f false) | "F" => some (.f true)
+      | "i" => some (.i false) | "I" => some (.i true) | "j" => some (.j false) | "J" => some (.j true)
+      | _ => none
+    match digitsOfString ip, frac, exp, suf with
+    | some ip, some fr, some ex, some su => some ⟨ip, fr, ex, su⟩
+    | _, _, _, _ => none
+  | _ => none
+
+def parseHexDigit (c : Char) : Option HexDigit :=
+  match hexDigitVal c with
+  | some v => some ⟨v, 'A' ≤ c ∧ c ≤ 'F'⟩
+  | none => none
+
+def parseItem (s : String) : Option StrItem :=
+  match s.toList with
+  | ['n'] => some .nl | ['r'] => some .cr | ['t'] => some .tab | ['0'] => some .nul
+  | ['b'] => some .backslash | ['q'] => some .squote | ['d'] => some .dquote
+  | 'p' :: h => (parseHexNat (String.ofList h)).map fun n => .plain (Char.ofNat n)
+  | ['x', a, b] => match parseHexDigit a, parseHexDigit b with
+    | some x, some y => some (.hex x y)
+    | _, _ => none
+  | 'u' :: k :: ds =>
+    let b : Option Bracket := match k with
+      | 'N' => some .none | 'C' => some .brace | 'P' => some .paren | 'S' => some .square
+      | 'A' => some .angle | _ => none
+    let hs := ds.foldr (fun c acc => match acc, parseHexDigit c with
+      | some r, some h => some (h :: r)
+      | _, _ => none) (some [])
+    match b, hs with
+    | some b, some hs => some (.uni b hs)
+    | _, _ => none
+  | _ => none
+
+def parseItems (s : String) : Option (List StrItem) :=
+  if s = "-" then some []
+  else (s.splitOn ",").foldr (fun t acc => match acc, parseItem t with
+    | some r, some i => some (i :: r)
+    | _, _ => none) (some [])
+
+def classBits (n : Nat) : Char :=
+  if 0xD800 ≤ n ∧ n ≤ 0xDFFF then '-'
+  else
+    let c := Char.ofNat n
+    let v := (if Unicode.isAlphabetic c then 1 else 0) + (if Unicode.isNumeric c then 2 else 0)
+      + (if Unicode.isUppercase c then 4 else 0) + (if Unicode.isWhitespace c then 8 else 0)
+    hexDigitChar v
+
+def renderBase : FmtBase → String
+  | .decimal => "d" | .binary => "b" | .octal => "o" | .lowerHex => "x" | .upperHex => "X"
+def renderAlign : FmtAlign → String
+  | .left => "<" | .right => ">" | .center => "^"
+def renderFmtPart : FmtPart → String
+  | .lit c => "L" ++ hexNat c.toNat
+  | .expr toks fl => "E[" ++ renderBase fl.base ++ "," ++ hexNat fl.pad.toNat ++ "," ++ toString fl.padLength ++ ","
+      ++ renderAlign fl.padAlign ++ "]" ++ (if toks.isEmpty then "!" else "")
+def renderFmtErr : FmtErr → String
+  | .unmatchedRight => "unmatchedRight" | .unmatchedLeft => "unmatchedLeft" | .emptyExpr => "emptyExpr"
+  | .padLength => "padLength" | .lexPanic => "lexPanic"
+
+def outLit (r : Out LitVal) : String := r.render renderLitVal
+
+def handle (args : List String) : String :=
+  match args with
+  | ["lex", cps] =>
+    match parseCps cps with
+    | some cs => renderTokens (lex cs) ++ "\tok"
+    | none => "bad-op"
+  | ["int", form, n, cps] =>
+    match parseIntForm form, n.toNat?, parseCps cps with
+    | some f, some n, some cs =>
+      let r := parseEvalLit cs
+      outLit r ++ "\t" ++ (if f.valid then "ok " ++ toString n else "bad-form") ++ "\t" ++ renderCps (renderInt f n)
+        ++ "\t" ++ repOf r
+    | _, _, _ => "bad-op"
+  | ["rat", n, cps] =>
+    match n.toNat?, parseCps cps with
+    | some n, some cs =>
+      outLit (parseEvalLit cs) ++ "\tok " ++ toString n ++ "/1\t" ++ renderCps (decimal n ++ ['q'])
+    | _, _ => "bad-op"
+  | ["float", desc, cps] =>
+    match parseFloatDesc desc, parseCps cps with
+    | some l, some cs =>
+      let spec := if l.wf then "ok " ++ (if l.suffix.isImag then "imag:" else "float:") ++ String.ofList l.text
+                  else "bad-form"
+      outLit (parseEvalLit cs) ++ "\t" ++ spec ++ "\t" ++ renderCps l.render
+    | _, _ => "bad-op"
+  | ["str", kind, delim, items, cps] =>
+    match parseItems items, parseCps cps with
+    | some its, some cs =>
+      let d : Char := if delim = "q" then '\'' else '"'
+      let pre : List Char := if kind = "b" then ['B'] else if kind = "F" then ['F'] else []
+      let spec : String :=
+        if kind = "b" then
+          match denoteBodyBytes its with
+          | some bs => "ok b:" ++ hexOfBytes bs
+          | none => "throw"
+        else
+          match denoteBody its with
+          | some vs => "ok s:" ++ hexOfBytes (vs.flatMap utf8)
+          | none => "throw"
+      outLit (parseEvalLit cs) ++ "\t" ++ spec ++ "\t" ++ renderCps (pre ++ d :: renderBody its ++ [d])
+    | _, _ => "bad-op"
+  | ["raw", delim, body, cps] =>
+    match parseCps body, parseCps cps with
+    | some b, some cs =>
+      let d : Char := if delim = "q" then '\'' else '"'
+      outLit (parseEvalLit cs) ++ "\tok s:" ++ hexOfBytes (utf8OfChars b) ++ "\t" ++ renderCps ('R' :: d :: b ++ [d])
+    | _, _ => "bad-op"
+  | ["fmt", cps] =>
+    match parseCps cps with
+    | some cs =>
+      (match fmtScan cs with
+        | .ok parts => "ok" ++ String.join (parts.map fun p => " " ++ renderFmtPart p)
+        | .error .lexPanic => "panic"
+        | .error e => "error:" ++ renderFmtErr e) ++ "\tok"
+    | none => "bad-op"
+  | ["cls", lo, hi] =>
+    match lo.toNat?, hi.toNat? with
+    | some lo, some hi => String.ofList ((List.range (hi + 1 - lo)).map fun i => classBits (lo + i)) ++ "\tok"
+    | _, _ => "bad-op"
+  | _ => "bad-op"
+
 end Noulith.DriverC15
